@@ -29,14 +29,19 @@ SOURCES = ["include/etl/_vector/static_vector.hpp", "include/etl/_inplace_vector
            "include/etl/_algorithm/remove_if.hpp", "include/etl/_algorithm/find_if.hpp",
            "include/etl/_algorithm/equal.hpp", "include/etl/_algorithm/lexicographical_compare.hpp",
            "include/etl/_type_traits/smallest_size_t.hpp"]
-RULE = ("exhaustive one-step box: static_vector of capacity 0..3 (int and a non-trivial class), every content state over "
+RULE = ("exhaustive one-step box: static_vector of capacity 0..3 (int, a non-trivial class, and a handle class whose move "
+        "assignment empties its source and has no self test), every content state over "
         "the values {0,1,2}, every member with every position / count / value / overload; every ordered pair of content "
         "states for copy/move construction and assignment, swap (member, free, self) and the six relational operators, each "
-        "copy followed by changes of the source and of the copy; inplace_vector (the members it has) and stack likewise at "
-        "capacity 0..3; the member inventory (api_member) of all three types at capacity 0 and 4; deterministic walks across "
+        "copy followed by two rounds of changes of the source and of the copy; inplace_vector (the members it has) and stack "
+        "likewise at capacity 0..3 (int and the non-trivial class); the member inventory (api_member) of all three types at "
+        "capacity 0 and 4; the size type at both sides of every threshold of the smallest_size_t chain (api_width: 254/255/256, "
+        "65534/65535/65536, 2^32-2/2^32-1/2^32, 2^63-1) and the widths of the types it names (api_abi); deterministic walks across "
         "the size-type boundary at capacities 254/255/256 (fill to capacity-1, to capacity, one more try, back, insert/erase at "
         "both ends, copy, compare, swap); plus seeded random histories of up to 40 operations on four live objects at "
-        "capacities {0,1,2,3,4,7} and of up to 10 operations from a nearly full vector at {254,255,256}.  Beyond capacity 3 "
+        "capacities {0,1,2,3,4,7}, random interleaved histories (object 0 := copy of object 1, then 2..16 single-object "
+        "operations addressed to the source or the copy at random: the hypothesis shape of copy_independent) at capacities "
+        "1..7, and histories of up to 10 operations from a nearly full vector at {254,255,256}.  Beyond capacity 3 "
         "nothing is exhaustive.  A line is generated only if it is valid by Tetl.C01.Spec.valid (precondition in the spec "
         "state; moved-from objects only take operations without a precondition on their contents).  A history is "
         "non-trivial when some object is non-empty after some step; distinct = distinct case text.")
@@ -686,48 +691,74 @@ LEVEL_TEXT = ("Proved in Lean 4 (no size bound, all capacities < 2^64, induction
               "size <= capacity and the capacity itself, and produces exactly the contents, iterator offset, "
               "count, pointer and the six comparison results that the list semantics of std::vector prescribe; "
               "try_push_back on a full inplace_vector returns null and changes nothing. "
-              "inplace_vector: the same theorem covers ONLY the members etl::inplace_vector has (try_/unchecked_ push and "
+              "Observers (observers_refine, observers_refine_ipv_stk, observers_zero_capacity): size/empty/full/capacity/max_size, "
+              "the begin..end and rbegin..rend walks, data()[i], operator[] / front / back / top through detail::index and its "
+              "contract check are model functions of their own and equal length / = [] / length = capacity / the list / its "
+              "reverse / list[i] / head / getLast. "
+              "'A copy is independent of its source' (copy_independent, interleave_projection, interleave_ok): for every "
+              "interleaved history of single-object operations after a copy, the copy ends with the contents and results of its "
+              "own operations run alone from the copied value, the source with those of its own operations run from the state "
+              "before the copy; this is a theorem about the model's step function (whose objects are separate lists) - that the "
+              "C++ objects own their storage is observed on the same interleaved histories (data() lies inside the object, all "
+              "four objects dumped after every line, ASan). "
+              "erase_if / erase(c, value) (eraseIf_refines for every element kind, eraseIf_keeps_handles): the element move "
+              "assignment of remove_if is modelled with its effect on the source and on a self-assignment; kept elements keep "
+              "their value, no element is move-assigned to itself (the handle element kind makes that observable). "
+              "Moved-from objects (moved_from_static_vector / _inplace_vector / _self / _usable): static_vector keeps the size "
+              "with moved-from elements, inplace_vector of a non-trivial type is emptied, of a trivial type untouched; all stay "
+              "within capacity and accept every operation without a precondition on the contents. "
+              "Size type: the conditional_t chain of smallest_size_t is extracted from the header on every run "
+              "(lean/Tetl/C01/GenSize.lean); size_fits is proved about that chain (every capacity < 2^64 fits the selected "
+              "type, for any chain whose links are sound); the selected type is the smallest of 8/16/32/64 bits that fits "
+              "EXCEPT at capacities 255, 65535, 2^32-1 (size_type_minimal_partial / _counterexample, known finding "
+              "F-C01-size-type-not-smallest-at-threshold); the storage selection of static_vector (capacity 0 / trivial / "
+              "non-trivial) and the aliases of the size type are pinned by storage_selection_as_modelled. "
+              "inplace_vector: the history theorem covers ONLY the members etl::inplace_vector has (try_/unchecked_ push and "
               "emplace, pop_back, clear, copy and move construction); push_back/emplace_back, insert, erase, resize, assign, the "
               "sized and range constructors, assignment, swap, erase/erase_if and the relational operators of "
               "std::inplace_vector do not exist in etl::inplace_vector, so that part of the property's histories is not "
               "covered for this type (known findings F-C01-inplace-vector-missing-members and -not-assignable; the inventory is "
               "re-derived from the headers by compile-time probes on every run). "
-              "NOT proved, observed only: 'a copy is independent of its source' (the model's objects are separate immutable "
-              "lists, sharing cannot be expressed in it; the harness copies, then overwrites / shrinks / grows the source and "
-              "changes the copy, dumping both after every line, under ASan). "
               "The model mirrors the C++ loop by "
               "loop (insert = append then the swap-cycle rotate; erase = move down, destroy, shrink; erase_if = remove_if + "
               "erase) and is compared with the implementation on every run under ASan/UBSan: exhaustively for all content "
               "states over three values at capacity 0..3 with every member, position, count and overload and every pair of "
-              "states for copy/move/swap/compare, for int and a non-trivial class (both storage implementations), plus "
-              "random 40-step histories at capacities up to 7, and deterministic walks plus random 10-step histories at the "
+              "states for copy/move/swap/compare, for int, a non-trivial class (both storage implementations) and a handle "
+              "class (static_vector), plus random 40-step histories and interleaved copy/source histories at capacities up to 7, "
+              "and deterministic walks plus random 10-step histories at the "
               "254/255/256 size-type boundary; the spec is validated against libstdc++ on the same histories.")
 LEVEL_NOTE = ("Trusted: Lean kernel + propext/Classical.choice/Quot.sound; fidelity of the hand model outside the explored "
-              "histories; element types modelled at the value level (object lifetime is C03's subject); g++-12 with "
+              "histories; the extractor gen/sizetype.py and the width table CTy.bits (LP64; compared with sizeof on every run); "
+              "element types modelled at the value level (object lifetime is C03's subject); g++-12 with "
               "ASan/UBSan; libstdc++ as oracle for R2 (std::vector + capacity test as stand-in for std::inplace_vector). Values "
               "the standard leaves unspecified (moved-from vectors) are masked on the spec side only, and mask the spec column "
-              "of the whole line while they exist. history_refines_modelstate additionally covers histories that go on using "
-              "a moved-from object with the contents etl leaves in it. unary_frame_structural / copy_value_frame_structural hold by the "
-              "representation of the model and are not evidence about aliasing. Known: default-initialised inplace_vector has "
-              "an indeterminate size (F-C01-inplace-vector-default-init). Members listed in coverage.correspondence_only have "
+              "of the whole line while they exist; what etl leaves there is stated by the moved_from_* theorems and compared "
+              "model vs implementation. history_refines_modelstate additionally covers histories that go on using "
+              "a moved-from object with the contents etl leaves in it. copy_independent / interleave_projection are statements "
+              "about the model (separate lists per object): sharing of storage is excluded on the C++ side by observation, not "
+              "by proof. In erase(first,last) the moved-from state of the sources of etl::move is not modelled (those elements "
+              "are destroyed or overwritten before anything can observe them; dst < src by construction). Known: "
+              "default-initialised inplace_vector has an indeterminate size (F-C01-inplace-vector-default-init); the size type "
+              "is one step too wide at capacities 255 / 65535 / 2^32-1. Members listed in coverage.correspondence_only have "
               "no theorem.")
 # members modelled and compared on every run but without a Lean theorem of their own
 CORRESPONDENCE_ONLY = [
-    "observers begin/end/cbegin/cend/rbegin/rend/data/operator[]/front/back/size/empty/full/capacity/max_size, const and "
-    "non-const (the model's state *is* the observable list; the harness cross-checks all of them on every line)",
-    "width of smallest_size_t<N> (api_bits: compared with the model's threshold chain; size_fits is proved about the model)",
+    "cbegin/cend/crbegin/crend and the const overloads of the observers (same bodies as the non-const ones that are modelled "
+    "in Observe.lean; the harness cross-checks them on every line: @cbegin, @cidx)",
     "default- vs value-initialisation of a new object (initSize: compared on `new ... init=` lines)",
     "stack::emplace / static_vector::emplace_back return type (void, std returns a reference): not compared",
-    "moved-from contents of a vector (model: mvd; spec: unspecified) — model vs implementation only",
     "member inventory (api_member: `supports` of the model against requires-expression probes of the tetl type, Spec.offers "
     "against the std type)",
+    "addresses: front()/back() refer to the first/last element, data() == begin(), the storage lies inside the object "
+    "(@fbaddr, @data, @inl flags of the harness; the model has no addresses)",
 ]
 # clauses of the property that no theorem carries: checked on the real code on every run, nothing more
 UNPROVED_OBSERVED = [
-    "'a copy is independent of its source': after every copy construction / copy assignment of the exhaustive box the source "
-    "is overwritten in place (static_vector), shrunk and grown, then the copy is changed; all four objects are dumped through "
-    "the public API after every line and compared with the model, the spec and std::vector; random histories interleave "
-    "copies with every other operation. The Lean model keeps objects as separate lists, so it cannot express sharing",
+    "'a copy is independent of its source' on the C++ side: copy_independent is proved about the model, whose objects are "
+    "separate lists; that a static_vector / inplace_vector / stack object owns its storage (no sharing after a copy) is "
+    "observed: data() lies inside the object (@inl), after every copy of the exhaustive box the source is overwritten in place, "
+    "shrunk, grown, then the copy is changed, two rounds; random interleaved copy/source histories; all four objects are "
+    "dumped through the public API after every line and compared with the model, the spec and std::vector",
     "inplace_vector members that std::inplace_vector has and etl::inplace_vector lacks (insert, erase, resize, assign, swap, "
     "erase_if, relational operators, push_back, sized/range constructors, assignment): nothing to run; their absence is "
     "re-observed on every run (api_member) and reported as known finding",
